@@ -222,6 +222,7 @@ func runC11(c *kit.Ctx) {
 
 	// ---- K2 ---------------------------------------------------------------
 	c.StartRule("K2", "optional protobuf pointers are nil-checked before they are dereferenced", 8)
+	clearedCallSlotsAreSkipped(c)
 	for _, f := range surface {
 		kit.Instrs(f, func(in ssa.Instruction) {
 			var ptr ssa.Value
